@@ -57,6 +57,7 @@ func c20(c *Ctx) {
 	c20commentReject(c)
 	c20writtenListDecides(c)
 	c20emptyChildLines(c)
+	c20closingTokenOwnLine(c)
 }
 
 // nodeish: *TokenNode, a type with a Format method from package ast, an interface of package ast, or a slice of those.
